@@ -127,7 +127,7 @@ def gen_case(rng, tier, i=None):
     words = sorted({it['description'].split()[0].split('.')[0] for it in items})
     family = rng.choice(['rules', 'rules', 'rules', 'legacy', 'views'])
     injected = rng.random() < 0.45
-    forced = None
+    forced = forced_value = None
     if i is not None and i % 3 == 0:
         # every third run is drawn from the grid (site x what the failing evaluation raises underneath), in order: whatever the
         # seed, a batch of 180 runs has met every cell
@@ -138,6 +138,12 @@ def gen_case(rng, tier, i=None):
         # over a long statement
         family, injected = 'rules', False
         forced = ('transform', 're.error')
+    elif i is not None and i % 7 == 5:
+        # the runs whose interpreter ignores assert statements (driver.run_environment: `python -O`) walk through the expressions
+        # that fail while producing a *value*, at the two sites that keep the value - what stands in for a failed evaluation
+        # must not be a value
+        family, injected = 'rules', False
+        forced_value = (('let', 'field')[(i // 7) % 2], NATURAL_VALUE[(i // 14) % len(NATURAL_VALUE)])
     case = {'family': family, 'injected': injected, 'items': items, 'mode': rng.choice(['first_match', 'first_match', 'most_specific']),
             'failing': [], 'eval_faults': [],
             # the budget `tally up` runs on has the supplemental `orders` source the rules query; in a third of the cases it cannot be
@@ -186,6 +192,15 @@ def gen_case(rng, tier, i=None):
                 bad = BY_CLASS[forced[1]][(i // 3) % len(BY_CLASS[forced[1]])]
             if site not in ('match', 'variable', 'let') and rng.random() < 0.5:
                 bad = bad.split(' == ')[0].split(' > ')[0]
+        if forced_value:
+            site, bad = forced_value
+            # ... in a rule that comes first and does match a row, so that the value is asked for
+            r['match'] = 'contains("%s")' % words[(i // 7) % len(words)]
+            m['rules'].remove(r)
+            m['rules'].insert(0, r)
+            k = 0
+            if not r['category']:
+                r['category'], r['subcategory'] = 'Misc', 'Other'
         if site == 'match':
             expr = r['match'] if injected else bad
             r['match'] = expr
@@ -502,8 +517,10 @@ def execute(case, scratch):
     site = case['site']
     fam = case['family']
 
-    def run(fn, faults=None):
+    def run(fn, faults=None, plain=False):
         plan_ = {'net': 'down', 'eval_faults': faults or None, 'today': case.get('today', '2025-06-15')}
+        if plain:
+            plan_['pyopt'] = 0      # whether an expression can be evaluated at all is asked of an ordinary interpreter
         if case.get('stderr_broken'):
             plan_['stdout_fault'] = {'after_effect': -1, 'stream': 'stderr'}
         def guarded(fn=fn):
@@ -570,7 +587,7 @@ def execute(case, scratch):
                         src = e
                         if site == 'transform':
                             pass
-                        res, _ = run(lambda e=src: fails_alone('txn', e, it), None)
+                        res, _ = run(lambda e=src: fails_alone('txn', e, it), None, plain=True)
                         if isinstance(res, str):
                             failing.add(e)
                             # what the evaluation raises underneath (the evaluators convert it): from the pool the expression came from
@@ -781,7 +798,7 @@ def execute(case, scratch):
                         failing = [case['expr'], m['merchant']] in faults
                         cls = 'ExpressionError(injected)'
                     else:
-                        r, _ = run(lambda m=m: fails_alone('view', case['expr'], m, merchants), None)
+                        r, _ = run(lambda m=m: fails_alone('view', case['expr'], m, merchants), None, plain=True)
                         failing = isinstance(r, str)
                         cls = r
                     if failing:
